@@ -403,6 +403,42 @@ def asm_all():
                     P("Definition %s_%s_fancy_rows : list (string * string) := [%s]." % (
                         tag, nm, "; ".join('("%s", "%s")' % k for k in sorted(set(ks)))))
             P()
+    # ---- row loops of the sample kernels: pointer increments (in rows) and counter decrement per iteration
+    P("(* ---- row loops: (input rows consumed, output rows produced, row-counter decrement) per iteration; loop while counter > 0 ---- *)")
+    for base, funcs in (("jdsample", ["h2v1_fancy_upsample", "h2v2_fancy_upsample", "h2v1_upsample", "h2v2_upsample"]),
+                        ("jcsample", ["h2v1_downsample", "h2v2_downsample"])):
+        for isa in ("sse2", "avx2"):
+            fname = "%s-%s.asm" % (base, isa)
+            txt = re.sub(r";.*", "", rd("simd/x86_64/" + fname))
+            for fn in funcs:
+                i1 = txt.find("EXTN(jsimd_%s_%s):" % (fn, isa))
+                if i1 < 0:
+                    die("%s: entry jsimd_%s_%s not found" % (fname, fn, isa))
+                i2 = txt.find("EXTN(jsimd_", i1 + 10)
+                seg = txt[i1:i2 if i2 > 0 else len(txt)]
+                m = re.search(r"add\s+rsi,\s*byte\s+(?:(\d+)\*)?SIZEOF_JSAMPROW\s*\n\s*add\s+rdi,\s*byte\s+(?:(\d+)\*)?SIZEOF_JSAMPROW\s*\n\s*"
+                              r"(dec\s+r[ac]x|sub\s+r[ac]x,\s*(?:byte\s+)?(\d+))\s*\n\s*jg\s+(?:near|short)?\s*\.rowloop", seg)
+                if not m:
+                    die("%s: row-loop tail of jsimd_%s_%s not recognised" % (fname, fn, isa))
+                ins = int(m.group(1) or 1); outs = int(m.group(2) or 1)
+                dec = 1 if m.group(3).startswith("dec") else int(m.group(4))
+                # the counter is loaded from max_v_samp_factor (upsample: r10) / v_samp_factor (downsample: r12d)
+                ctr = "r10" if base == "jdsample" else "r12d"
+                reg = "rcx" if base == "jdsample" else "eax"
+                if not re.search(r"mov\s+%s,\s*%s" % (reg, ctr), seg):
+                    die("%s: jsimd_%s_%s no longer loads its row counter from %s" % (fname, fn, isa, ctr))
+                P("Definition rowloop_%s_%s : Z * Z * Z := (%d, %d, %d)." % (fn, isa, ins, outs, dec))
+    # colour / merged kernels: one input row and one output row per iteration, counter decremented by one
+    for base in ("jccolext", "jcgryext", "jdcolext"):
+        for isa in ("sse2", "avx2"):
+            fname = "%s-%s.asm" % (base, isa)
+            txt = re.sub(r";.*", "", rd("simd/x86_64/" + fname))
+            adds = re.findall(r"add\s+r[a-z]+,\s*byte\s+(?:(\d+)\*)?SIZEOF_JSAMPROW", txt)
+            m = re.search(r"(dec\s+rax|sub\s+rax,\s*(?:byte\s+)?(\d+))\s*\n\s*jg\s+(?:near|short)?\s*\.rowloop", txt)
+            if not m or not adds:
+                die(fname + ": row loop not recognised")
+            P("Definition rowloop_%s_%s : list Z * Z := ([%s], %d)." % (base, isa, "; ".join(a or "1" for a in adds), 1 if m.group(1).startswith("dec") else int(m.group(2))))
+    P()
     # every row must have the length of its vector (16 or 32 bytes)
     P("Definition asm_row_inventory : list (Z * Z * Z) :=   (* vector bytes, element bytes, length *)")
     P("  [%s]." % "; ".join("(%d, %d, %d)" % (32 if t.endswith("avx2") else 16, w, len(v)) for t, n, w, v in allrows))
